@@ -24,6 +24,32 @@ VNACAL_F_EXTRAPOLATION and the site's variables.  Every site is mapped to a func
 where [need_lo, need_hi] is the band that has to be covered (calibration range, or the queried
 frequency) and [have_lo, have_hi] the band that is supplied (parameter / noise vector /
 calibration range).  The variable bindings of every site (fmin = ...[0], ...) are checked as well.
+
+Parameter chains (_vnacal_get_parameter_frange, vnacal_parameter.c).  The walk is checked to be
+
+    case VNACAL_SCALAR: *fmin = 0.0; *fmax = INFINITY; break;
+    case VNACAL_VECTOR: *fmin = ...frequency_vector[0]; *fmax = ...[frequencies - 1]; break;
+    case VNACAL_UNKNOWN: case VNACAL_CORRELATED: vpmrp = vpmrp->vpmr_other; continue;
+
+followed by the restriction to the sigma grid of the ORIGINAL parameter
+
+    if (vpmrp_orig->vpmr_type == VNACAL_CORRELATED && vpmrp_orig->vpmr_sigma_frequency_vector != NULL) {
+        int sf = ...; double smin = ...sigma_frequency_vector[0]; double smax = ...[sf - 1];
+        if (<a> <op> <b>) { *<t> = <c>; }        (two such stanzas, a, b, c in smin smax *fmin *fmax)
+        if (<a> <op> <b>) { *<t> = <c>; }
+    }
+
+The two stanzas are regenerated (operands, operator, target, value - executed in sequence) as
+
+    frange_clamp (smin smax fmin fmax : xq) : xq * xq
+
+over the frequencies extended by +infinity (LV.Interp.FrangeBase.xq), and the decision function of
+check_single_frequency_range is emitted a second time with the supplied band in xq
+(range_new_parameter_reject_x); the supplied ends may then only occur as bare comparison operands.
+The sites that fix which sigma frequency vector a correlated parameter carries
+(vnacal_make_correlated_parameter.c: NULL for one point, its own copy, or the vector of the parameter
+at the end of the chain) and the recursion of _vnacal_new_get_parameter / _vnacal_new_check_parameter
+into the correlate are checked to be in the accepted idiom.
 """
 import os
 import re
@@ -205,6 +231,86 @@ def _lower_upper_site(body, where, lvalues, bindings, fail):
     return {"lets": [("lower", lo), ("upper", hi)], "cond": cond}
 
 
+def _frange_part(repo):
+    """_vnacal_get_parameter_frange: walk idiom checked, the two clamp stanzas parsed."""
+    where = "vnacal_parameter.c:_vnacal_get_parameter_frange"
+    fr = _function_body(_read(repo, "vnacal_parameter.c"), "_vnacal_get_parameter_frange", "vnacal_parameter.c")
+    _need(fr, r"vnacal_parameter_t\s*\*\s*vpmrp_orig\s*=\s*vpmrp\s*;\s*for\s*\(\s*;\s*;\s*\)\s*\{\s*switch\s*\(\s*vpmrp->vpmr_type\s*\)\s*\{",
+          where, "'vpmrp_orig = vpmrp; for (;;) { switch (vpmrp->vpmr_type) {'")
+    _need(fr, r"case\s+VNACAL_SCALAR\s*:\s*\*fmin\s*=\s*0\.0\s*;\s*\*fmax\s*=\s*INFINITY\s*;\s*break\s*;", where,
+          "scalar parameter range = 0.0 .. INFINITY")
+    _need(fr, r"case\s+VNACAL_VECTOR\s*:\s*\*fmin\s*=\s*vpmrp->vpmr_frequency_vector\[0\]\s*;\s*"
+              r"\*fmax\s*=\s*vpmrp->vpmr_frequency_vector\[vpmrp->vpmr_frequencies\s*-\s*1\]\s*;\s*break\s*;", where,
+          "vector parameter range = first and last frequency")
+    _need(fr, r"case\s+VNACAL_UNKNOWN\s*:\s*case\s+VNACAL_CORRELATED\s*:\s*vpmrp\s*=\s*vpmrp->vpmr_other\s*;\s*continue\s*;", where,
+          "unknown / correlated: continue with vpmr_other")
+    m = _need(fr, r"\}\s*break\s*;\s*\}\s*if\s*\(\s*vpmrp_orig->vpmr_type\s*==\s*VNACAL_CORRELATED\s*&&\s*"
+                  r"vpmrp_orig->vpmr_sigma_frequency_vector\s*!=\s*NULL\s*\)\s*\{(.*)\}\s*$", where,
+              "'if (vpmrp_orig->vpmr_type == VNACAL_CORRELATED && vpmrp_orig->vpmr_sigma_frequency_vector != NULL) {' after the walk")
+    blk = m.group(1)
+    m = _need(blk, r"^\s*int\s+sf\s*=\s*vpmrp_orig->vpmr_sigma_frequencies\s*;\s*"
+                   r"double\s+smin\s*=\s*vpmrp_orig->vpmr_sigma_frequency_vector\[0\]\s*;\s*"
+                   r"double\s+smax\s*=\s*vpmrp_orig->vpmr_sigma_frequency_vector\[sf\s*-\s*1\]\s*;(.*)$", where,
+              "'int sf = ...; double smin = ...[0]; double smax = ...[sf - 1];'")
+    rest = m.group(1)
+    names = {"smin": "smin", "smax": "smax", "*fmin": "fmin", "*fmax": "fmax"}
+    opnd = r"(smin|smax|\*\s*fmin|\*\s*fmax)"
+    stz = re.compile(r"\s*if\s*\(\s*%s\s*(<=|>=|<|>)\s*%s\s*\)\s*\{\s*\*\s*(fmin|fmax)\s*=\s*%s\s*;\s*\}" % (opnd, opnd, opnd))
+    stanzas, pos = [], 0
+    while True:
+        mm = stz.match(rest, pos)
+        if not mm:
+            break
+        nm = lambda t: names[re.sub(r"\s+", "", t)]
+        stanzas.append({"a": nm(mm.group(1)), "op": mm.group(2), "b": nm(mm.group(3)), "target": mm.group(4), "value": nm(mm.group(5))})
+        pos = mm.end()
+    if rest[pos:].strip() != "" or len(stanzas) != 2:
+        raise TranslateError("%s: expected exactly two stanzas 'if (a op b) { *f = c; }' in the sigma restriction, found %d, rest %r"
+                             % (where, len(stanzas), rest[pos:].strip()[:60]))
+    if sorted(s["target"] for s in stanzas) != ["fmax", "fmin"]:
+        raise TranslateError("%s: the two stanzas no longer assign *fmin and *fmax once each" % where)
+
+    # which frequency vector a correlated parameter carries
+    mk = _function_body(_read(repo, "vnacal_make_correlated_parameter.c"), "vnacal_make_correlated_parameter",
+                        "vnacal_make_correlated_parameter.c")
+    w2 = "vnacal_make_correlated_parameter.c"
+    _need(mk, r"if\s*\(\s*sigma_frequencies\s*==\s*1\s*\)\s*\{\s*free\s*\(\s*\(void\s*\*\)\s*frequency_vector_copy\s*\)\s*;\s*"
+              r"vpmrp->vpmr_sigma_frequency_vector\s*=\s*NULL\s*;\s*\}\s*else\s+if\s*\(\s*frequency_vector_copy\s*!=\s*NULL\s*\)\s*\{\s*"
+              r"vpmrp->vpmr_sigma_frequency_vector\s*=\s*frequency_vector_copy\s*;\s*\}\s*else\s*\{\s*"
+              r"assert\s*\([^;]*\)\s*;\s*vpmrp->vpmr_sigma_frequency_vector\s*=\s*vpmrp_end->vpmr_frequency_vector\s*;\s*\}", w2,
+          "sigma frequency vector: NULL for one point / own copy / vector at the end of the chain")
+    _need(mk, r"vpmrp_end\s*=\s*vpmrp_other\s*;\s*while\s*\(\s*vpmrp_end->vpmr_type\s*==\s*VNACAL_UNKNOWN\s*\|\|\s*"
+              r"vpmrp_end->vpmr_type\s*==\s*VNACAL_CORRELATED\s*\)\s*\{\s*vpmrp_end\s*=\s*vpmrp_end->vpmr_other\s*;\s*\}", w2,
+          "walk to the end of the chain of the correlate")
+    _need(mk, r"vpmrp->vpmr_sigma_frequencies\s*=\s*sigma_frequencies\s*;", w2, "vpmr_sigma_frequencies = sigma_frequencies")
+    sg = _function_body(_read(repo, "vnacal_make_correlated_parameter.c"), "_vnacal_get_correlated_sigma", w2)
+    _need(sg, r"if\s*\(\s*vpmrp->vpmr_sigma_frequencies\s*==\s*1\s*\)\s*\{\s*return\s+vpmrp->vpmr_sigma_vector\[0\]\s*;\s*\}\s*"
+              r"return\s+_vnacommon_spline_eval\s*\(\s*vpmrp->vpmr_sigma_frequencies\s*-\s*1\s*,\s*vpmrp->vpmr_sigma_frequency_vector\s*,\s*"
+              r"vpmrp->vpmr_sigma_vector\s*,\s*vpmrp->vpmr_sigma_spline\s*,\s*frequency\s*\)\s*;", w2 + ":_vnacal_get_correlated_sigma",
+          "one point: sigma_vector[0]; else _vnacommon_spline_eval(n - 1, sigma grid, sigma values, spline, frequency)")
+    _need(mk, r"_vnacommon_spline_calc\s*\(\s*sigma_frequencies\s*-\s*1\s*,\s*frequency_vector_copy\s*!=\s*NULL\s*\?\s*"
+              r"frequency_vector_copy\s*:\s*vpmrp_end->vpmr_frequency_vector\s*,\s*sigma_vector_copy\s*,\s*spline_vector\s*\)", w2,
+          "_vnacommon_spline_calc(sigma_frequencies - 1, own copy or borrowed vector, sigma_vector_copy, spline_vector)")
+
+    # the add-time decision recurses into the correlate, with the same band
+    t = _read(repo, "vnacal_new_parameter.c")
+    for fn in ("_vnacal_new_get_parameter", "_vnacal_new_check_parameter"):
+        g = _function_body(t, fn, "vnacal_new_parameter.c")
+        _need(g, r"if\s*\(\s*vnp->vn_frequencies_valid\s*&&\s*vnp->vn_frequencies\s*>\s*0\s*\)\s*\{\s*if\s*\(\s*check_single_frequency_range\s*\("
+                 r"\s*function\s*,\s*vnp\s*,\s*vnp->vn_frequency_vector\[0\]\s*,\s*vnp->vn_frequency_vector\[vnp->vn_frequencies\s*-\s*1\]\s*,\s*"
+                 r"vpmrp\s*\)\s*==\s*-1\s*\)\s*\{\s*return\s+(?:NULL|-1)\s*;", "vnacal_new_parameter.c:" + fn,
+              "range check of the parameter itself when the frequency vector is valid")
+        _need(g, r"vnacal_parameter_t\s*\*\s*vpmrp_correlate\s*=\s*VNACAL_GET_PARAMETER_OTHER\s*\(\s*vpmrp\s*\)\s*;[^;]*%s\s*\(\s*function\s*,\s*vnp\s*,\s*"
+                 r"VNACAL_GET_PARAMETER_INDEX\s*\(\s*vpmrp_correlate\s*\)\s*\)" % re.escape(fn), "vnacal_new_parameter.c:" + fn,
+              "recursion into the correlate of a correlated parameter")
+    ca = _function_body(t, "_vnacal_new_check_all_frequency_ranges", "vnacal_new_parameter.c")
+    _need(ca, r"for\s*\(\s*int\s+bucket\s*=\s*0\s*;\s*bucket\s*<\s*vnphp->vnph_allocation\s*;\s*\+\+bucket\s*\)\s*\{.*?"
+              r"vnprp\s*=\s*vnphp->vnph_table\[bucket\]\s*;\s*for\s*\(\s*;\s*vnprp\s*!=\s*NULL\s*;\s*vnprp\s*=\s*vnprp->vnpr_hash_next\s*\)\s*\{\s*"
+              r"if\s*\(\s*check_single_frequency_range\s*\(\s*function\s*,\s*vnp\s*,\s*fmin\s*,\s*fmax\s*,\s*vnprp->vnpr_parameter\s*\)\s*==\s*-1\s*\)\s*\{\s*return\s+-1\s*;",
+          "vnacal_new_parameter.c:_vnacal_new_check_all_frequency_ranges", "every member of the parameter hash is range-checked with the same band")
+    return {"stanzas": stanzas}
+
+
 def translate(repo):
     out = {"consts": {}, "sites": {}}
     h = _read(repo, "vnacal_internal.h")
@@ -311,6 +417,8 @@ def translate(repo):
     for k, s in out["sites"].items():
         if len(s["cond"]) != 2:
             raise TranslateError("%s: expected two comparisons, found %d" % (k, len(s["cond"])))
+    out["frange"] = _frange_part(repo)
+    _check_x_form(out["sites"]["range_new_parameter"], "vnacal_new_parameter.c:check_single_frequency_range")
     return out
 
 
@@ -344,10 +452,122 @@ def _c(c):
     return "Qle_bool %s %s" % (b, a)
 
 
+def _has_var(e, names):
+    if e[0] == "var":
+        return e[1] in names
+    if e[0] in ("num", "fext"):
+        return False
+    return _has_var(e[1], names) or _has_var(e[2], names)
+
+
+def _check_x_form(site, where):
+    """The xq form needs the supplied ends as bare comparison operands only (they may be +infinity)."""
+    hv = ("have_lo", "have_hi")
+    for v, e in site["lets"]:
+        if _has_var(e, hv):
+            raise TranslateError("%s: %s is computed from the parameter's range (not expressible with an infinite upper end)" % (where, v))
+    for op, a, b in site["cond"]:
+        for e in (a, b):
+            if e[0] != "var" and _has_var(e, hv):
+                raise TranslateError("%s: the parameter's range occurs inside an arithmetic expression of the comparison" % where)
+
+
+def _xe(e):
+    if e[0] == "var" and e[1] in ("have_lo", "have_hi"):
+        return e[1]
+    return "(Fin %s)" % _e(e)
+
+
+def _xc(c):
+    op, a, b = c
+    a, b = _xe(a), _xe(b)
+    if op == "<":
+        return "xltb %s %s" % (a, b)
+    if op == ">":
+        return "xltb %s %s" % (b, a)
+    if op == "<=":
+        return "xleb %s %s" % (a, b)
+    return "xleb %s %s" % (b, a)
+
+
+def _xcmp(op, a, b):
+    if op == "<":
+        return "xltb %s %s" % (a, b)
+    if op == ">":
+        return "xltb %s %s" % (b, a)
+    if op == "<=":
+        return "xleb %s %s" % (a, b)
+    return "xleb %s %s" % (b, a)
+
+
+def emit_frange(tr):
+    L = []
+    s = tr["sites"]["range_new_parameter"]
+    L.append("Definition range_new_parameter_reject_x (need_lo need_hi : Q) (have_lo have_hi : xq) : bool :=")
+    for v, e in s["lets"]:
+        L.append("  let %s := %s in" % (v, _e(e)))
+    L.append("  orb (%s) (%s)." % (_xc(s["cond"][0]), _xc(s["cond"][1])))
+    L.append("")
+    L.append("Definition frange_clamp (smin smax fmin fmax : xq) : xq * xq :=")
+    for st in tr["frange"]["stanzas"]:
+        L.append("  let %s := (if %s then %s else %s) in" % (st["target"], _xcmp(st["op"], st["a"], st["b"]), st["value"], st["target"]))
+    L.append("  (fmin, fmax).")
+    L.append("")
+    return L
+
+
+INF = "inf"
+
+
+def py_clamp(tr, smin, smax, fmin, fmax):
+    """frange_clamp evaluated in Python; values are Fractions or INF (= +infinity)."""
+    def lt(a, b):
+        return (a != INF) and (b == INF or a < b)
+
+    def le(a, b):
+        return b == INF or (a != INF and a <= b)
+    env = {"smin": smin, "smax": smax, "fmin": fmin, "fmax": fmax}
+    for st in tr["frange"]["stanzas"]:
+        a, b = env[st["a"]], env[st["b"]]
+        c = {"<": lt(a, b), ">": lt(b, a), "<=": le(a, b), ">=": le(b, a)}[st["op"]]
+        if c:
+            env[st["target"]] = env[st["value"]]
+    return env["fmin"], env["fmax"]
+
+
+def py_decide_x(tr, need_lo, need_hi, have_lo, have_hi):
+    """range_new_parameter_reject_x evaluated in Python (have_hi may be INF)."""
+    def lt(a, b):
+        return (a != INF) and (b == INF or a < b)
+
+    def le(a, b):
+        return b == INF or (a != INF and a <= b)
+    env = {"need_lo": need_lo, "need_hi": need_hi, "have_lo": have_lo, "have_hi": have_hi}
+
+    def ev(e):
+        k = e[0]
+        if k == "num":
+            return e[1]
+        if k == "fext":
+            return tr["consts"]["f_extrapolation"]
+        if k == "var":
+            return env[e[1]]
+        a, b = ev(e[1]), ev(e[2])
+        return a + b if k == "add" else a - b if k == "sub" else a * b
+    s = tr["sites"]["range_new_parameter"]
+    for v, e in s["lets"]:
+        env[v] = ev(e)
+    res = False
+    for op, a, b in s["cond"]:
+        a, b = ev(a), ev(b)
+        res = res or {"<": lt(a, b), ">": lt(b, a), "<=": le(a, b), ">=": le(b, a)}[op]
+    return res
+
+
 def emit(tr):
     c = tr["consts"]
     L = ["(* GENERATED by translate/ranges.py from the C sources - do not edit. *)",
-         "Require Import ZArith QArith.", "Require Import LV.Interp.QOrd.", "Local Open Scope Q_scope.", "",
+         "Require Import ZArith QArith.", "Require Import LV.Interp.QOrd LV.Interp.FrangeBase.", "Local Open Scope Q_scope.", "",
          "Definition f_extrapolation : Q := %s." % _q(c["f_extrapolation"]),
          "Definition rfi_eps : Q := %s." % _q(c["rfi_eps"]),
          "Definition rfi_cut_factor : Q := %s." % _q(c["rfi_cut_factor"]),
@@ -360,6 +580,7 @@ def emit(tr):
             L.append("  let %s := %s in" % (v, _e(e)))
         L.append("  orb (%s) (%s)." % (_c(s["cond"][0]), _c(s["cond"][1])))
         L.append("")
+    L += emit_frange(tr)
     return "\n".join(L)
 
 
